@@ -28,4 +28,15 @@ PROPS = {
         technique="contract-based deductive verification (Verus) of the real free_space.rs, mechanically extracted each run",
         level_text="Unbounded deductive proof (Verus/Z3) that every public operation of the real FreeSpaceManager, extracted mechanically from /repo on each run, satisfies a contract over the set-of-free-blocks view and re-establishes the representation invariant (two trees agree, runs in bounds, fully coalesced, total == 4096*|free set|); the 'every call sequence' quantifier is discharged by invariant induction, which no finite test can do.",
     ),
+    "C09": dict(
+        units=[("kani", "io_ordering", None)],
+        assumptions=["A2", "A3", "A9", "A10"],
+        not_decided=["what the write buffer does with these errors (requeue, scrub, quarantine: failed_batch_outcome and friends; process_write_batch is intractable for CBMC, DESIGN U10)",
+                     "two-fault and persistent-fault sequences beyond what poisoning implies",
+                     "error propagation worker -> force_flush -> flush_all (channels, threads)",
+                     "reads from memory during faults; reopen after an indeterminate failure",
+                     "the io_uring path of batch_write_inner (unsafe + kernel)"],
+        technique="Kani/CBMC proofs of ghost-trace I/O contracts on the real DiskIO functions (staged copy of the crate, syscalls stubbed to a trace, one symbolic failing call)",
+        level_text="Per-function contracts on the real DiskIO mutators, checked by Kani/CBMC for all generations/slots/sectors and every position of one failing write or fsync: Ok implies every write was followed by a successful fsync; Err leaves in-memory journal positions unchanged; a failed retirement poisons the handle and every later write/flush/journal call is refused without touching the device. Harnesses with a loop are bounded and labelled so. Only the DiskIO layer is decided; the write-buffer reaction to errors is not.",
+    ),
 }
